@@ -179,13 +179,21 @@ def gormScan (cur : Option SRow) (evs : List Ev) (raise : Bool) (cols : List Str
 def queryPath (c : List Ev) (raise : Bool) (cols : List String) (d : Dest) : ScanOut :=
   gormScan none c raise cols d
 
+/-- the else-branch's `if _, ok := dest.(*[]map[string]interface{}); !ok { if rv.Kind() == reflect.Slice { rv.SetLen(0) } }`
+    (present iff `reset`, regenerated fact `Gen.scanNoRowResetsSlice`): a slice of structs / pointers is emptied,
+    a slice of maps and every single-row destination are left as they are -/
+def noRowDest (reset : Bool) : Dest → Dest
+  | .structs sch old => .structs sch (bif reset then [] else old)
+  | d => d
+
 /-- finisher_api.go Scan: `if rows.Next() { tx.ScanRows(rows, dest) } else { tx.RowsAffected = 0;
-    tx.AddError(rows.Err()) }` — in the else-branch the destination is not touched -/
-def dbScan (c : List Ev) (cols : List String) (d : Dest) : ScanOut :=
+    tx.AddError(rows.Err()); [reset of a slice destination] }` — in the tree with finding F7e (`reset = false`) the
+    else-branch does not touch the destination -/
+def dbScan (reset : Bool) (c : List Ev) (cols : List String) (d : Dest) : ScanOut :=
   match c with
   | .row r :: rest => gormScan (some r) rest false cols d
-  | .fail :: _ => { dest := d, ra := 0, err := true, notFound := false, rest := [.fail], branch := "scan.else.err" }
-  | [] => { dest := d, ra := 0, err := false, notFound := false, rest := [], branch := "scan.else.eof" }
+  | .fail :: _ => { dest := noRowDest reset d, ra := 0, err := true, notFound := false, rest := [.fail], branch := "scan.else.err" }
+  | [] => { dest := noRowDest reset d, ra := 0, err := false, notFound := false, rest := [], branch := "scan.else.eof" }
 
 /-- what ONE `db.ScanRows(rows, &dest)` does to a single-row destination (mode ScanInitialized) -/
 def scanRow1 (cols : List String) (d : Dest) (r : SRow) : Dest :=
